@@ -321,6 +321,9 @@ func exoticLiteral(rt *rapid.T, v *big.Int) string {
 	if neg {
 		sign = "-"
 	}
+	if v.Sign() == 0 {
+		return rapid.SampledFrom([]string{"-0", "0e5", "0.0", "-0.0e-3", "0E+0", "0e-1", "0.000"}).Draw(rt, "lit.zero")
+	}
 	e := rapid.SampledFrom([]string{"e", "E"}).Draw(rt, "lit.e")
 	switch rapid.IntRange(0, 5).Draw(rt, "lit.mode") {
 	case 0: // d.ddddEn  (scientific, what a float printer would emit)
@@ -346,9 +349,6 @@ func exoticLiteral(rt *rapid.T, v *big.Int) string {
 		cut := rapid.IntRange(1, len(digits)-1).Draw(rt, "lit.cut")
 		return fmt.Sprintf("%s%s.%s%s%d", sign, digits[:cut], digits[cut:], e, len(digits)-cut)
 	default:
-		if v.Sign() == 0 {
-			return rapid.SampledFrom([]string{"-0", "0e5", "0.0", "-0.0e-3", "0E+0"}).Draw(rt, "lit.zero")
-		}
 		return sign + digits + e + "+0"
 	}
 }
